@@ -55,7 +55,7 @@ def clone_at(lentil, w, wavelength):
 
 def workload(ctx, lentil):
     rng = ctx.rng
-    n = 90 if ctx.tier == 'quick' else 600
+    n = ctx.count(90, 600)
     gmax = 48 if ctx.tier == 'quick' else 96
     dirty = None          # a scratch buffer kept across cases (history)
     for i in range(n):
